@@ -134,11 +134,18 @@ func rewriteHooks(src, dst, modDir, recv string) error {
 	exprText := func(e ast.Expr) string { return text[fset.Position(e.Pos()).Offset:fset.Position(e.End()).Offset] }
 	for _, d := range f.Decls {
 		fd, ok := d.(*ast.FuncDecl)
-		if !ok || fd.Recv == nil || fd.Body == nil || len(fd.Recv.List) != 1 {
+		if !ok || fd.Body == nil {
 			continue
 		}
-		rt := exprText(fd.Recv.List[0].Type)
-		if strings.TrimPrefix(rt, "*") != recv {
+		keyRecv := "func"
+		if fd.Recv != nil {
+			if len(fd.Recv.List) != 1 {
+				continue
+			}
+			keyRecv = strings.TrimPrefix(exprText(fd.Recv.List[0].Type), "*")
+		}
+		// recv "*" = every function and method of the file; "func" = plain functions; otherwise methods of that type
+		if recv != "*" && keyRecv != recv {
 			continue
 		}
 		if fd.Type.TypeParams != nil {
@@ -188,7 +195,7 @@ func rewriteHooks(src, dst, modDir, recv string) error {
 			ret = ""
 		}
 		call := "zzvhook(" + strings.Join(pnames, ", ") + ")"
-		code := fmt.Sprintf("\n\tif zzvhook, ok := zzverif.Hooks[%q].(%s); ok {\n\t\t%s%s\n", recv+"."+fd.Name.Name, sig, ret, call)
+		code := fmt.Sprintf("\n\tif zzvhook, ok := zzverif.Hooks[%q].(%s); ok {\n\t\t%s%s\n", keyRecv+"."+fd.Name.Name, sig, ret, call)
 		if len(rtypes) == 0 {
 			code += "\t\treturn\n"
 		}
